@@ -52,6 +52,7 @@ pub struct SchedConfig {
     pub starve: Option<(usize, usize, usize)>,
     /// open the window only once the thread holds the deques lock (see ops::SchedSpec)
     pub starve_in_sync: bool,
+    pub starve_stutter: Option<(usize, usize)>,
 }
 
 struct State {
@@ -72,6 +73,7 @@ struct State {
     fair_after: usize,
     starve: Option<(usize, usize, usize)>,
     starve_in_sync: bool,
+    starve_stutter: Option<(usize, usize)>,
     progress_epoch: u64,
     abort: Option<Abort>,
     trace: Fnv,
@@ -129,6 +131,7 @@ impl Sched {
                 fair_after: cfg.fair_after,
                 starve: cfg.starve,
                 starve_in_sync: cfg.starve_in_sync,
+                starve_stutter: cfg.starve_stutter,
                 progress_epoch: 1,
                 abort: None,
                 trace: Fnv::default(),
@@ -176,7 +179,11 @@ impl Sched {
             }
         }
         if let Some((t, a, b)) = st.starve {
-            if !st.starve_in_sync && st.steps >= a && st.steps < b && st.steps < st.fair_after && el.len() > 1 {
+            let in_on_phase = match st.starve_stutter {
+                Some((on, off)) if st.steps >= a => (st.steps - a) % (on + off).max(1) < on,
+                _ => true,
+            };
+            if !st.starve_in_sync && in_on_phase && st.steps >= a && st.steps < b && st.steps < st.fair_after && el.len() > 1 {
                 if el.contains(&t) {
                     st.starved_steps += 1;
                 }
